@@ -15,7 +15,17 @@ open GmVerif
 def stripHints (toks : List String) : List String :=
   toks.map fun t => if t.startsWith "aff:" then (t.drop 4).toString else t
 
+/-- `<op>_j <z> args…` (z: one or several comma-separated canonical field values): the real code is handed the public key /
+    ephemeral points in the Jacobian representation (x z², y z³, z) instead of the affine one.  Every protocol function is a
+    function of the POINT, not of its representation, so the standard — and the models, whose decoders produce affine points —
+    answer as for `<op> args…`. -/
+def stripRep (toks : List String) : List String :=
+  match toks with
+  | op :: _z :: rest => if op.endsWith "_j" then (op.dropEnd 2).toString :: rest else toks
+  | _ => toks
+
 def step1 (spec : Bool) (toks : List String) : String :=
+  let toks := stripRep toks
   let toks := if spec then stripHints toks else toks
   let r := if spec then (Drv.Sym.specStep toks <|> Drv.SM2.specStep toks <|> Drv.SM9Spec.specStep toks)
            else (Drv.Sym.implStep toks <|> Drv.SM2.implStep toks <|> Drv.SM9Impl.implStep toks)
